@@ -3,4 +3,4 @@
 From Coq Require Import Extraction ExtrOcamlBasic ExtrOcamlString.
 From Qryn Require Import lib.Strs model.Sql model.SqlRender model.Logql model.LogqlPlan model.LogqlCases model.LogqlMetricSem
   model.LogqlMetricExec.
-Extraction "logqlexec.ml" exec_case impl_case impl_text analyze_m15 norm_script.
+Extraction "logqlexec.ml" exec_case impl_case impl_text analyze_m15 norm_script model_wrefs_bound.
